@@ -453,12 +453,21 @@ def public_path(run):
              ("=INDEX('Data'!A:C,2,3)", 3, val(1, 3, 2))]
     for k, (f, own, _) in enumerate(forms):
         maps[own - 1][(6, k)] = f
-    res = repo.public_path_eval(run.scratch, list(zip(TITLES3, maps)), [(own - 1, 6, k) for k, (_, own, _) in enumerate(forms)], tag='c02pp')
-    for (f, own, exp), (kind, p) in zip(forms, res):
-        ok = kind == 'val' and p == exp
-        run.judge({'in': {'formula': f, 'own_sheet': TITLES3[own - 1], 'mode': 'file'}, 'ideal': exp, 'obs': repo_show(kind, p, None), 'kind': 'public_path'}, ok,
-                  clause=f'file path: {f} on {TITLES3[own - 1]!r} = {repo_show(kind, p, None)}, expected {exp}', part='public_path')
-        run.traces_validated += 1
+    # the same workbook once more with a chart sheet among its tabs (before the second worksheet): titles still denote worksheets
+    for chart_before in (None, 1):
+        res = repo.public_path_eval(run.scratch, list(zip(TITLES3, maps)), [(own - 1, 6, k) for k, (_, own, _) in enumerate(forms)], tag='c02pp',
+                                    chart_before=chart_before)
+        for (f, own, exp), (kind, p) in zip(forms, res):
+            ok = kind == 'val' and p == exp
+            run.judge({'in': {'formula': f, 'own_sheet': TITLES3[own - 1], 'mode': 'file', 'chart_before': chart_before}, 'ideal': exp, 'obs': repo_show(kind, p, None),
+                       'kind': 'public_path'}, ok,
+                      clause=f'file path{" (a chart sheet before the 2nd worksheet)" if chart_before is not None else ""}: {f} on {TITLES3[own - 1]!r} = '
+                             f'{repo_show(kind, p, None)}, expected {exp}', part='public_path')
+            run.traces_validated += 1
+    # a chart sheet is not a worksheet: a reference to its title names a sheet that does not exist
+    res = repo.public_path_eval(run.scratch, [(TITLES3[0], {(0, 0): 1, (0, 1): 2, (3, 0): '=Chart!A1+1'}), (TITLES3[1], {(0, 0): 5})], [(0, 3, 0)], tag='c02ppc', chart_before=1)
+    run.judge({'in': {'formula': '=Chart!A1+1', 'mode': 'file', 'chart_before': 1}, 'obs': repo_show(*res[0], None), 'kind': 'public_path'}, res[0][0] == 'texc',
+              clause=f'file path: =Chart!A1+1 names the chart sheet (not a worksheet) but was not rejected: {repo_show(*res[0], None)}', part='public_path')
 
 
 def reordered(run):
